@@ -1,4 +1,5 @@
 import inspect
+import threading
 from typing import Callable, Optional, Dict, Any, TypeVar, List
 from .datastructures import ImmutableDict
 from .functional import represent, multi, distinct_add
@@ -18,6 +19,8 @@ class TypeRegistry:
                  ):
         self._registry = []
         self._cache = {}
+        # registrations may come from several threads while others resolve
+        self._lock = threading.Lock()
 
         self.name = name
         self.cache = cache
@@ -75,9 +78,13 @@ class TypeRegistry:
         def decorator(f):
             if not self.validator(f):
                 raise TypeError(f'Invalid register target: {f}, must pass <{self.validator}> validate')
-            self._registry.insert(0, (detector, f, priority))
-            self._registry.sort(key=lambda v: -v[2])
-            self._cache.clear()
+            with self._lock:
+                # (sorted aside and swapped in: list.sort() detaches the list's items while it runs,
+                # a concurrent resolve() would scan an empty registry)
+                registry = [(detector, f, priority)] + self._registry
+                registry.sort(key=lambda v: -v[2])
+                self._registry = registry
+                self._cache.clear()
             return f
 
         # before runtime, type will be compiled and applied
